@@ -221,11 +221,19 @@ class ModelEval:
             lambda k, rec: self._doses(rec, pre_envs[k]),
             is_reset=self._is_reset,
         )
-        for env, a in zip(pre_envs, amounts):
+        from .xeval import Undefined as _Undef
+
+        for env, a, rec in zip(pre_envs, amounts, recs):
             for nm, v in zip(self.amount_names, a):
                 env[nm] = float(v)
             for s in post:
-                env[str(s.symbol)] = ev(s.expression, env)
+                try:
+                    env[str(s.symbol)] = ev(s.expression, env)
+                except _Undef:
+                    # the prediction of a dose record is not an observation: a model may leave it without a value
+                    if not self._is_dose(rec):
+                        raise
+                    env.pop(str(s.symbol), None)
             envs.append(env)
         return envs
 
